@@ -270,7 +270,11 @@ func (incr *incremental[Obj]) commitStatus() (numErrors int) {
 			// user would have replaced it with Pending. Without this the result of a retry
 			// would be dropped, the retry forgotten and the object left in Error for good.
 			currentStatus := incr.config.GetObjectStatus(current)
-			if (currentStatus.IsPendingOrRefreshing() && currentStatus.ID == result.id) ||
+			//
+			// An identifier of 0 identifies nothing: it is what a status that was not
+			// made with StatusPending() carries (unmarshalled `kind: Pending`, a zero
+			// StatusSet), on every version of the object. Treat it as "may have changed".
+			if (currentStatus.IsPendingOrRefreshing() && result.id != 0 && currentStatus.ID == result.id) ||
 				currentStatus.Kind == StatusKindError {
 				current = incr.config.CloneObject(current)
 				current = incr.config.SetObjectStatus(current, status)
